@@ -139,6 +139,18 @@ class Contract:
         self.ensures_.append((label, expr))
         return self
 
+    def abstract_local(self, name, ty):
+        """the value of this local is irrelevant to the contract: assignments to it are skipped (right-hand sides not
+        evaluated) and it holds an arbitrary value of `ty`; listed in the evidence as dropped computation"""
+        self.__dict__.setdefault("abstract_locals_", {})[name] = ty
+        return self
+
+    def wrapping(self, *targets):
+        """assignment targets (source text) whose value is plain data, never an index or a size: its arithmetic is
+        taken to wrap (two's complement) instead of carrying no-overflow obligations; listed as an assumption"""
+        self.__dict__.setdefault("wrapping_", set()).update(targets)
+        return self
+
     def never_raises(self, *names):
         """exception classes (with subclasses) that must not escape, even though a broader raises clause covers them"""
         self.__dict__.setdefault("never_raises_", []).extend(names)
